@@ -25,7 +25,19 @@ type yieldVisit struct {
 var (
 	yieldMu  sync.Mutex
 	yieldLog []yieldVisit
+	yieldAct map[string]func(key string)
 )
+
+// setYieldAction makes the goroutine that reaches a yield point of the given kind run fn there (after
+// installYields): the simulator's way of placing another activity exactly inside that window.
+func setYieldAction(kind string, fn func(key string)) {
+	yieldMu.Lock()
+	if yieldAct == nil {
+		yieldAct = map[string]func(string){}
+	}
+	yieldAct[kind] = fn
+	yieldMu.Unlock()
+}
 
 // yieldVisits returns the visits recorded since the last installYields.
 func yieldVisits() []yieldVisit {
@@ -39,6 +51,7 @@ func installYields(seed uint64, p float64, kinds ...string) func() {
 	visits := map[string]int{}
 	yieldMu.Lock()
 	yieldLog = nil
+	yieldAct = nil
 	yieldMu.Unlock()
 	want := map[string]bool{}
 	for _, k := range kinds {
@@ -47,7 +60,11 @@ func installYields(seed uint64, p float64, kinds ...string) func() {
 	verifhook.SetYieldHandler(func(kind, key string) {
 		yieldMu.Lock()
 		yieldLog = append(yieldLog, yieldVisit{kind, key, time.Now()})
+		act := yieldAct[kind]
 		yieldMu.Unlock()
+		if act != nil {
+			act(key)
+		}
 		if len(want) > 0 && !want[kind] {
 			return
 		}
